@@ -270,7 +270,25 @@ func judgeFee(c *core.Ctx, co *collector, s *subject, a, b uint64, how string) {
 	case bigU(v).Cmp(want) == 0:
 		c.Count("minfee_exact_"+tag, 1)
 	default:
+		// the library sizes the transaction at MORE bytes than the statement's
+		// definition (original length, minus one for a four-element envelope):
+		// the fee rule then demands more than a*size+b. Keyed by how the
+		// envelope header of the original bytes is written.
 		c.Count("minfee_above_reference_"+tag, 1)
+		form := "other"
+		if s.family == "standalone" && len(s.origin) > 0 {
+			switch b0 := s.origin[0]; {
+			case b0 >= 0x80 && b0 <= 0x97:
+				form = "direct"
+			case b0 >= 0x98 && b0 <= 0x9b:
+				form = "wide-definite"
+			case b0 == 0x9f:
+				form = "indefinite"
+			}
+		}
+		co.add(finding{key: "C30:size-too-large:" + tag + ":envelope-" + form,
+			what:    fmt.Sprintf("%s %s transaction (%s, envelope header %s): MinFeeTx = %d exceeds a*size+b = %s for the statement's size %d (a=%d b=%d): the library does not take the four-element-envelope byte off for this encoding", en, s.family, s.source, form, v, want, s.size, a, b),
+			witness: s.witness(map[string]any{"a": a, "b": b, "reference_min_fee": want.String(), "library_min_fee": v, "observed_at": "MinFeeTx"}), weight: s.weight()})
 	}
 
 	rule, _ := lg.Rule(s.era, "UtxoValidateFeeTooSmallUtxo")
